@@ -88,7 +88,7 @@ func runCheck(w *World, o *checkOpts, t0 time.Time) int {
 		return 2
 	}
 	defer os.RemoveAll(tmp)
-	cfg := &solveCfg{tmp: tmp, fastSec: 10, fullSec: 30}
+	cfg := &solveCfg{tmp: tmp, fastSec: 6, fullSec: 30}
 	if o.tier == "thorough" {
 		cfg.fastSec, cfg.fullSec = 20, 180
 	}
